@@ -241,9 +241,16 @@ func checkC12(run *Run, res *Result) {
 					res.violate("C12", "R1-reopened-from-wrong-position", e.N, fmt.Sprintf("vb=%d", e.Vb),
 						"member %d vb %d: re-opened after a transient end from seqno %d; the settled position was %d when the stream ended and is %d now", e.M, e.Vb, e.Off.Seq, v.posAtEnd, v.pos)
 				}
+				if e.Off.Latest != v.end {
+					res.violate("C12", "R1-reopened-with-wrong-end", e.N, fmt.Sprintf("vb=%d", e.Vb),
+						"member %d vb %d: re-opened after a transient end with end seqno %d; the session's stream for this vBucket runs to %d", e.M, e.Vb, e.Off.Latest, v.end)
+				}
 				if e.S2 == "ok" {
 					v.awaiting, v.fails = false, 0
 					res.probe("reopened-after-transient-end")
+					if len(cfg.CollectionNames) > 0 {
+						res.probe("reopened-after-transient-end:filtered-stream")
+					}
 				} else {
 					v.fails++
 					if v.fails >= 5 {
